@@ -1,40 +1,51 @@
 """Translator: pyttb/hosvd.py + pyttb/tucker_als.py
 -> lean/PyttbModel/Generated/TuckerFormulas.lean (definitions only).
 
-The two Python files are parsed with `ast` on every run.  The anchored scalar assignments
-become Lean definitions over any scalar type with `+ - *`, `0`, `1` and the `NumOps` record
-(`div sqrt abs lt ofNat`), with the free Python names as parameters.  The C10 models
-(`Alg/Hosvd.lean`, `Alg/TuckerAls.lean`) call these definitions, and the C10 theorems are
-stated about the models, so a change of a formula in the Python source changes what the
-theorems are about (and breaks the proofs when the property no longer follows).
+The two Python files are parsed with `ast` on every run and read through their DATA FLOW (harness/translate/flow.py:
+symbolic execution, module-level helpers executed in place, locals followed to the expression that reaches them), so
+the anchors are found by their role, not by a variable name or a position.  The anchored scalar expressions become
+Lean definitions over any scalar type with `+ - *`, `0`, `1` and the `NumOps` record (`div sqrt abs lt ofNat`), with
+the agreed inputs as parameters.  The C10 models (`Alg/Hosvd.lean`, `Alg/TuckerAls.lean`) call these definitions, and
+the C10 theorems are stated about the models, so a change of a formula in the Python source changes what the theorems
+are about (and breaks the proofs when the property no longer follows).
 
-hosvd.py anchors
-  normxsqr        `normxsqr = (ttb.tensor(input_tensor.double(), copy=False)**2).collapse()`  (shape only:
+hosvd.py anchors (roles)
+  mode loop       the loop that fills the factor list handed to the returned `ttb.ttensor(core, factors, ...)`
+  rank_is_auto    the chosen rank is written to `<ranks>[k]` under the test `<ranks>[k] == <int>`
+  rank_cut        the value written there: `np.where(<sums> <cmp> <threshold>)[0][-1] [+ <int>]`
+  eigsum          <sums> = `np.cumsum(<eigenvalues>[::-1])[::-1]`
+  descending      <eigenvalues> = `D[np.argsort(-D, ...)]`, `D = scipy.linalg.eigh(<Gram matrix>)[0]`  (shape only)
+  eigsumthresh    <threshold>, an expression in `tol`, normxsqr and `d = input_tensor.ndims`
+  normxsqr        `(ttb.tensor(input_tensor.double(), copy=False)**2).collapse()` reaches the threshold (shape only:
                   the sum of squares of the data in floating point)
-  eigsumthresh    `eigsumthresh = <expr in tol, normxsqr, d>`
-  descending      `pi = np.argsort(-D, ...)`, `eigvec = D[pi]`              (shape only)
-  rank_is_auto    `if ranks[k] == <int>:`
-  eigsum          `eigsum = np.cumsum(eigvec[::-1])`; `eigsum = eigsum[::-1]`
-  rank_cut        `ranks[k] = np.where(eigsum <cmp> eigsumthresh)[0][-1] [+ <int>]`
-  slice_bound     `factor_matrices[k] = V[:, pi[0 : ranks[k] [+ <int>]]]`   (auto AND given ranks)
-  shrink / core   `Y = Y.ttm(factor_matrices[k].transpose(), int(k))` under `if sequential`,
-                  `G = Y` / `G = Y.ttm(factor_matrices, transpose=True)`    (shape only)
-tucker_als.py anchors
-  normX           `normX = input_tensor.norm()`                             (shape only)
-  normresidual    `normresidual = <expr in normX, core.norm()>`
-  fit             `fit = <expr in normresidual, normX>`
-  fitchange       `fitchange = <expr in fitold, fit>`
-  stop            `if <fitchange cmp stoptol>: break`
-  iters           `"iters": iteration [+ <int>]` in the output dictionary
-  loop            `for iteration in range(maxiters):`                        (shape only)
+  slice_bound     the value written to `<factors>[k]`: `V[:, pi[0 : <ranks>[k] [+ <int>]]]` with V the eigenvectors and
+                  pi the descending order of the SAME decomposition (automatic AND given ranks)
+  shrink / core   the tensor handed on by a pass is `Y.ttm(<factors>[k].transpose(), int(k)) if sequential else Y`, the
+                  core is `Y if sequential else Y.ttm(<factors>, transpose=True)`            (shape only)
+tucker_als.py anchors (roles)
+  main loop       `for <it> in range(maxiters):`
+  normresidual    the value that reaches "normresidual" of the returned dictionary: an expression in
+                  normX = `input_tensor.norm()` and normCore = `<core>.norm()`
+  fit             the value that reaches "fit": an expression in normresidual and normX; `fit = 0` before the loop
+  stop, fitchange the path condition of the loop's only `break`; fitchange is its maximal sub-expression built from
+                  the new fit and the fit at the start of the pass
+  iters           `"iters": <it> [+ <int>]` in the returned dictionary
+  loop            one pass = `for n in dimorder: U[n] = input_tensor.ttm(U, exclude_dims=n, transpose=True).nvecs(n,
+                  rank[n])`, core = `<that product>.ttm(U, n, transpose=True)`                (shape only)
 
-Anything outside the accepted subset is reported as "anchor lost: <name>", never guessed.
+Anything outside the accepted subset is reported as "anchor lost: <name>", never guessed; the definitions that could
+be read are still emitted.  Doc comments carry the expression that was translated (the source snippet with the inputs
+under their parameter names), never a line number: a shifted line or a renamed local does not change the generated text.
 """
 from __future__ import annotations
 
 import ast
+import copy
+from pathlib import Path
 
 from harness.lib import LEAN, REPO
+from harness.translate import flow
+from harness.translate.flow import Flow, fold, plain, simplify, text
 
 PROPS = ["C10"]
 
@@ -77,7 +88,7 @@ class ExprTr:
         return name
 
     def bad(self, node, what):
-        raise Lost(f"{self.anchor}: unsupported {what} `{ast.unparse(node)}` at line {getattr(node, 'lineno', '?')}")
+        raise Lost(f"{self.anchor}: unsupported {what} `{plain(node)[:80]}`")
 
     def tr(self, node):
         k = _int(node)
@@ -139,46 +150,6 @@ class ExprTr:
 # ----------------------------------------------------------------------------
 # AST helpers
 # ----------------------------------------------------------------------------
-def _fn(mod, name):
-    for st in mod.body:
-        if isinstance(st, ast.FunctionDef) and st.name == name:
-            return st
-    raise Lost(f"{name}: function not found")
-
-
-def _walk_stmts(body):
-    """All statements, nested ones included, in source order."""
-    for st in body:
-        yield st
-        for fld in ("body", "orelse", "finalbody"):
-            sub = getattr(st, fld, None)
-            if isinstance(sub, list):
-                yield from _walk_stmts(sub)
-
-
-def _assigns(fn, name):
-    """Assignments `name = value` anywhere in the function, in source order."""
-    out = []
-    for st in _walk_stmts(fn.body):
-        if isinstance(st, ast.Assign) and len(st.targets) == 1 and isinstance(st.targets[0], ast.Name) \
-                and st.targets[0].id == name:
-            out.append(st)
-    return out
-
-
-def _one_assign(fn, name, anchor=None):
-    a = _assigns(fn, name)
-    if len(a) != 1:
-        raise Lost(f"{anchor or name}: expected exactly one assignment `{name} = ...`, found {len(a)}")
-    return a[0]
-
-
-def _is_sub(node, base, idx):
-    """`base[idx]` with plain names"""
-    return (isinstance(node, ast.Subscript) and isinstance(node.value, ast.Name) and node.value.id == base
-            and isinstance(node.slice, ast.Name) and node.slice.id == idx)
-
-
 def _plus_const(node, is_base):
     """`<base>` -> 0, `<base> + c` -> c, `<base> - c` -> -c, else None"""
     if is_base(node):
@@ -192,114 +163,158 @@ def _plus_const(node, is_base):
     return None
 
 
-def _is_reversed(node, name):
-    """`name[::-1]`"""
-    if not (isinstance(node, ast.Subscript) and isinstance(node.value, ast.Name) and node.value.id == name):
-        return False
+def _is_reversed(node):
+    """`<x>[::-1]` -> x, else None"""
+    if not isinstance(node, ast.Subscript):
+        return None
     s = node.slice
-    return (isinstance(s, ast.Slice) and s.lower is None and s.upper is None
-            and isinstance(s.step, ast.UnaryOp) and isinstance(s.step.op, ast.USub) and _int(s.step.operand) == 1)
+    if (isinstance(s, ast.Slice) and s.lower is None and s.upper is None
+            and isinstance(s.step, ast.UnaryOp) and isinstance(s.step.op, ast.USub) and _int(s.step.operand) == 1):
+        return node.value
+    return None
+
+
+def _pure_call(n):
+    return _call_name(n.func) in ("abs", "absolute", "fabs", "sqrt") and len(n.args) == 1 and not n.keywords
+
+
+def _is_norm_call(n):
+    return (isinstance(n, ast.Call) and isinstance(n.func, ast.Attribute) and n.func.attr == "norm"
+            and not n.args and not n.keywords)
+
+
+def _attempt(lost, name, f):
+    try:
+        f()
+    except Lost as e:
+        lost.append(str(e))
+    except Exception as e:  # noqa: BLE001
+        lost.append(f"{name}: {type(e).__name__}: {e}")
+
+
+def _formula(anchor, e, allowed):
+    """-> {"lean", "params", "python", "doc"} of a folded scalar expression."""
+    t = ExprTr(anchor)
+    body = t.tr(e)
+    if set(t.params) - set(allowed):
+        raise Lost(f"{anchor}: unexpected free names {sorted(set(t.params) - set(allowed))}")
+    # doc = the expression over the parameter names: what was translated and what the cross-check family evaluates; a
+    # refactoring that keeps the formula keeps the generated text byte for byte
+    return {"lean": body, "params": list(t.params), "python": text(e), "doc": text(e)}
 
 
 # ----------------------------------------------------------------------------
 # hosvd.py
 # ----------------------------------------------------------------------------
+NORMXSQR_SRC = "(ttb.tensor(input_tensor.double(), copy=False) ** 2).collapse()"
+
+
+def _is_normxsqr(n):
+    """the sum of the squares of the data CONVERTED TO DOUBLE (2517f75): `(input_tensor**2).collapse()` wrapped
+    around for integer-typed data, which the exact-arithmetic model `normSq` does not do — only the floating point
+    form is accepted"""
+    ok = (isinstance(n, ast.Call) and not n.args and not n.keywords and isinstance(n.func, ast.Attribute)
+          and n.func.attr == "collapse" and isinstance(n.func.value, ast.BinOp)
+          and isinstance(n.func.value.op, ast.Pow) and _int(n.func.value.right) == 2)
+    if ok:
+        b = n.func.value.left
+        ok = (isinstance(b, ast.Call) and plain(b.func) == "ttb.tensor" and len(b.args) == 1
+              and plain(b.args[0]) == "input_tensor.double()" and all(k.arg == "copy" for k in b.keywords))
+    return ok
+
+
 def read_hosvd(src):
-    """-> dict of definitions (strings / ints) and the list of lost anchors"""
+    """-> dict of definitions and the list of lost anchors.
+
+    Everything is read from the data flow of `hosvd` (flow.py): the factor list is the second argument of the returned
+    `ttb.ttensor(core, factors, ...)`; the mode loop is the loop that fills it; the chosen rank is the value written to
+    `<ranks>[k]` under the test `<ranks>[k] == <int>`; eigenvalues, eigenvectors and the descending order are the
+    expressions found inside those values, whatever the locals are called and whether or not a helper computes them."""
     out, lost = {}, []
-    mod = ast.parse(src)
+    F = Flow(src, roots=["hosvd"])
     try:
-        fn = _fn(mod, "hosvd")
-    except Lost as e:
-        return out, [str(e)]
+        R = F.run("hosvd")
+    except KeyError:
+        return out, ["hosvd: function not found"]
+    out["inlined_helpers"] = list(F.inlined)
+    res = R.result
+    if not (isinstance(res, ast.Call) and plain(res.func) in ("ttb.ttensor", "ttensor") and len(res.args) >= 2):
+        return out, ["hosvd: the function does not return `ttb.ttensor(core, factors, ...)`"]
+    G, FM = res.args[0], res.args[1]
+    s = F.sym(FM.id) if isinstance(FM, ast.Name) else None
+    if not s or s["kind"] != "out":
+        return out, ["mode loop: the factor list of the result is not filled by a loop over the modes"]
+    L = F.regions[s["region"]]
+    fm_var = s["var"]
+    if len(L.targets) != 1:
+        return out, ["mode loop: expected one loop variable"]
+    k = L.targets[0]
+    k_sym = f"{k}{flow.SEP}in{L.id}"
+    ren = {k: "k", fm_var: "factor_matrices"}
 
-    def attempt(name, f):
-        try:
-            f()
-        except Lost as e:
-            lost.append(str(e))
-        except Exception as e:  # noqa: BLE001
-            lost.append(f"{name}: {type(e).__name__}: {e}")
+    def canon(e):
+        return text(flow.rename(e, ren))
 
-    def normxsqr():
-        # the sum of the squares of the data CONVERTED TO DOUBLE (2517f75): `(input_tensor**2).collapse()` wrapped
-        # around for integer-typed data, which the exact-arithmetic model `normSq` does not do — only the
-        # floating point form is accepted
-        st = _one_assign(fn, "normxsqr")
-        v = st.value
-        ok = (isinstance(v, ast.Call) and not v.args and not v.keywords and isinstance(v.func, ast.Attribute)
-              and v.func.attr == "collapse" and isinstance(v.func.value, ast.BinOp)
-              and isinstance(v.func.value.op, ast.Pow) and _int(v.func.value.right) == 2)
-        if ok:
-            base = v.func.value.left
-            ok = (isinstance(base, ast.Call) and ast.unparse(base.func) == "ttb.tensor" and len(base.args) == 1
-                  and ast.unparse(base.args[0]) == "input_tensor.double()"
-                  and all(k.arg == "copy" for k in base.keywords))
-        if not ok:
-            raise Lost("normxsqr: expected `(ttb.tensor(input_tensor.double(), copy=False) ** 2).collapse()`, "
-                       f"found `{ast.unparse(v)}`")
-        out["normxsqr_line"] = st.lineno
+    def is_k(n):
+        return isinstance(n, ast.Name) and n.id == k_sym
 
-    def eigsumthresh():
-        st = _one_assign(fn, "eigsumthresh")
-        t = ExprTr("eigsumthresh")
-        body = t.tr(st.value)
-        if set(t.params) - {"tol", "normxsqr", "d"}:
-            raise Lost(f"eigsumthresh: unexpected free names {t.params}")
-        out["eigsumthresh"] = (body, st.lineno, ast.unparse(st.value))
-        out["eigsumthresh_params"] = t.params
+    def sub_k(n, var=None):
+        """`<var>[k]`"""
+        return (isinstance(n, ast.Subscript) and isinstance(n.value, ast.Name) and is_k(n.slice)
+                and (var is None or flow.base(n.value.id) == var))
 
-    def descending():
-        st = _one_assign(fn, "pi", "descending")
-        v = st.value
-        ok = (isinstance(v, ast.Call) and _call_name(v.func) == "argsort" and len(v.args) == 1
-              and isinstance(v.args[0], ast.UnaryOp) and isinstance(v.args[0].op, ast.USub)
-              and isinstance(v.args[0].operand, ast.Name) and v.args[0].operand.id == "D")
-        if not ok:
-            raise Lost(f"descending: expected `pi = np.argsort(-D, ...)`, found `{ast.unparse(v)}`")
-        st2 = _one_assign(fn, "eigvec", "descending")
-        if not _is_sub(st2.value, "D", "pi"):
-            raise Lost(f"descending: expected `eigvec = D[pi]`, found `{ast.unparse(st2.value)}`")
-
-    auto_if = {}
+    st = {}
 
     def rank_is_auto():
-        for st in _walk_stmts(fn.body):
-            if isinstance(st, ast.If) and isinstance(st.test, ast.Compare) and len(st.test.ops) == 1 \
-                    and isinstance(st.test.ops[0], ast.Eq) and _is_sub(st.test.left, "ranks", "k"):
-                c = _int(st.test.comparators[0])
-                if c is None or c < 0:
-                    break
-                out["auto_marker"] = (c, st.lineno, ast.unparse(st.test))
-                auto_if["node"] = st
-                return
-        raise Lost("rank_is_auto: `if ranks[k] == <int>:` not found")
+        cands = []
+        for e in L.entries("effect"):
+            pc = [simplify(c) for c in e.rel_pc()]
+            if sub_k(e.target) and not pc:
+                # `ranks[k] = <cut> if ranks[k] == 0 else ranks[k]`
+                v = simplify(e.value)
+                if isinstance(v, ast.IfExp) and sub_k(v.orelse, e.name):
+                    e = copy.copy(e)
+                    e.value, pc = v.body, [v.test]
+            if not (sub_k(e.target) and len(pc) == 1):
+                continue
+            t = pc[0]
+            e.auto_test = t
+            if (isinstance(t, ast.Compare) and len(t.ops) == 1 and isinstance(t.ops[0], ast.Eq)
+                    and sub_k(t.left, e.name) and _int(t.comparators[0]) is not None and _int(t.comparators[0]) >= 0):
+                cands.append(e)
+        if len(cands) != 1:
+            raise Lost(f"rank_is_auto: expected one assignment `ranks[k] = ...` under `if ranks[k] == <int>:`, found {len(cands)}")
+        e = cands[0]
+        st["cut"], st["ranks"] = e, e.name
+        ren[e.name] = "ranks"
+        t = e.auto_test
+        out["auto_marker"] = {"value": _int(t.comparators[0]), "python": canon(t)}
 
-    def eigsum():
-        node = auto_if.get("node")
-        if node is None:
-            raise Lost("eigsum: enclosing `if ranks[k] == ...` not found")
-        a = [st for st in node.body if isinstance(st, ast.Assign) and len(st.targets) == 1
-             and isinstance(st.targets[0], ast.Name) and st.targets[0].id == "eigsum"]
-        if len(a) != 2:
-            raise Lost(f"eigsum: expected two assignments to eigsum, found {len(a)}")
-        v = a[0].value
-        ok1 = (isinstance(v, ast.Call) and _call_name(v.func) == "cumsum" and len(v.args) == 1
-               and not v.keywords and _is_reversed(v.args[0], "eigvec"))
-        ok2 = _is_reversed(a[1].value, "eigsum")
-        if not (ok1 and ok2):
-            raise Lost("eigsum: expected `np.cumsum(eigvec[::-1])` followed by `eigsum[::-1]`")
-        out["eigsum_line"] = a[0].lineno
+    def eig_parts(dd, what):
+        """dd must be `scipy.linalg.eigh(Z)[0]`; returns the text of the eigh call"""
+        ok = (isinstance(dd, ast.Subscript) and _int(dd.slice) == 0 and isinstance(dd.value, ast.Call)
+              and plain(dd.value.func) == "scipy.linalg.eigh" and len(dd.value.args) == 1)
+        if not ok:
+            raise Lost(f"{what}: the eigenvalues are not the first result of `scipy.linalg.eigh(Z)`: `{plain(dd)[:60]}`")
+        z = canon(dd.value.args[0])
+        if z != "np.dot(Y.to_tenmat(np.array([k])).double(), Y.to_tenmat(np.array([k])).double().transpose())":
+            st.setdefault("gram_drift", z)
+        return text(dd.value)
+
+    def descending_parts(ev, what):
+        """ev must be `D[np.argsort(-D, ...)]` -> (text of D, text of the argsort, text of the eigh call)"""
+        ok = (isinstance(ev, ast.Subscript) and isinstance(ev.slice, ast.Call) and _call_name(ev.slice.func) == "argsort"
+              and len(ev.slice.args) == 1 and isinstance(ev.slice.args[0], ast.UnaryOp)
+              and isinstance(ev.slice.args[0].op, ast.USub)
+              and text(ev.slice.args[0].operand) == text(ev.value))
+        if not ok:
+            raise Lost(f"{what}: expected the eigenvalues in descending order `D[np.argsort(-D, ...)]`, found `{plain(ev)[:70]}`")
+        return text(ev.value), text(ev.slice), eig_parts(ev.value, what)
 
     def rank_cut():
-        node = auto_if.get("node")
-        if node is None:
+        e = st.get("cut")
+        if e is None:
             raise Lost("rank_cut: enclosing `if ranks[k] == ...` not found")
-        cand = [st for st in node.body if isinstance(st, ast.Assign) and len(st.targets) == 1
-                and _is_sub(st.targets[0], "ranks", "k")]
-        if len(cand) != 1:
-            raise Lost(f"rank_cut: expected one assignment to ranks[k], found {len(cand)}")
-        st = cand[0]
 
         def is_last_where(n):
             # np.where(<cmp>)[0][-1]
@@ -313,55 +328,124 @@ def read_hosvd(src):
             return (isinstance(n, ast.Call) and _call_name(n.func) == "where" and len(n.args) == 1
                     and not n.keywords and isinstance(n.args[0], ast.Compare) and len(n.args[0].ops) == 1)
 
-        off = _plus_const(st.value, is_last_where)
+        off = _plus_const(e.value, is_last_where)
         if off is None or off < 0:
-            raise Lost(f"rank_cut: expected `np.where(eigsum <cmp> eigsumthresh)[0][-1] [+ c]`, found `{ast.unparse(st.value)}`")
-        base = st.value if off == 0 else st.value.left
-        cmp_node = base.value.value.args[0]
+            raise Lost(f"rank_cut: expected `np.where(eigsum <cmp> eigsumthresh)[0][-1] [+ c]`, found `{plain(e.value)[:90]}`")
+        basev = e.value if off == 0 else e.value.left
+        cmp_node = basev.value.value.args[0]
+        sides = [cmp_node.left, cmp_node.comparators[0]]
+        cum = [x for x in sides if any(isinstance(c, ast.Call) and _call_name(c.func) == "cumsum" for c in ast.walk(x))]
+        if len(cum) != 1:
+            raise Lost(f"rank_cut: the condition must compare the reverse cumulative sums with the threshold, found `{plain(cmp_node)[:90]}`")
+        cum = cum[0]
+        thr = sides[1] if cum is sides[0] else sides[0]
+        st["cum"], st["thr"] = cum, thr
+        leaves = {text(cum): "eigsum", text(thr): "eigsumthresh"}
         t = ExprTr("rank_cut", rename={"eigsum": "e"})
-        cond = t.tr(cmp_node)
+        cond = t.tr(fold(cmp_node, leaves))
         if set(t.params) != {"e", "eigsumthresh"}:
-            raise Lost(f"rank_cut: the condition must compare eigsum with eigsumthresh, found `{ast.unparse(cmp_node)}`")
-        out["rank_cut"] = (cond, off, st.lineno, ast.unparse(st.value))
+            raise Lost(f"rank_cut: the condition must compare eigsum with eigsumthresh, found `{plain(cmp_node)[:90]}`")
+        out["rank_cut"] = {"cond": cond, "offset": off, "python": text(fold(e.value, leaves)),
+                           "doc": text(fold(e.value, leaves))}
+
+    def eigsum():
+        cum = st.get("cum")
+        if cum is None:
+            raise Lost("eigsum: the rank cut-off was not read")
+        inner = _is_reversed(cum)
+        ok = inner is not None and isinstance(inner, ast.Call) and _call_name(inner.func) == "cumsum" \
+            and len(inner.args) == 1 and not inner.keywords and _is_reversed(inner.args[0]) is not None
+        if not ok:
+            raise Lost(f"eigsum: expected `np.cumsum(eigvec[::-1])[::-1]`, found `{plain(cum)[:80]}`")
+        st["ev"] = _is_reversed(inner.args[0])
+        out["eigsum"] = {"doc": "eigsum = np.cumsum(eigvec[::-1])[::-1]"}
+
+    def descending():
+        ev = st.get("ev")
+        if ev is None:
+            raise Lost("descending: the reverse cumulative sums were not read")
+        st["D"], st["pi"], st["eigh"] = descending_parts(ev, "descending")
+        out["descending"] = True
+
+    def eigsumthresh():
+        thr = st.get("thr")
+        if thr is None:
+            raise Lost("eigsumthresh: the rank cut-off was not read")
+        seen = []
+
+        def pred(n):
+            if _is_normxsqr(n):
+                seen.append(n)
+                return "normxsqr"
+            if plain(n) == "input_tensor.ndims":
+                return "d"
+            return None
+        e = flow.fold_where(thr, pred)
+        out["eigsumthresh"] = _formula("eigsumthresh", e, ["tol", "normxsqr", "d"])
+        if seen:
+            out["normxsqr"] = True
+
+    def normxsqr():
+        if "normxsqr" not in out:
+            raise Lost(f"normxsqr: `{NORMXSQR_SRC}` does not reach the threshold")
 
     def slice_bound():
-        cand = [st for st in _walk_stmts(fn.body) if isinstance(st, ast.Assign) and len(st.targets) == 1
-                and _is_sub(st.targets[0], "factor_matrices", "k")]
-        if len(cand) != 1:
-            raise Lost(f"slice_bound: expected one assignment to factor_matrices[k], found {len(cand)}")
-        st = cand[0]
-        v = st.value
+        cand = [e for e in L.entries(("effect", "augeffect")) if e.name == fm_var]
+        if len(cand) != 1 or cand[0].kind != "effect" or cand[0].rel_pc() or not sub_k(cand[0].target):
+            raise Lost(f"slice_bound: expected one unconditional assignment to factor_matrices[k], found {len(cand)}")
+        v = cand[0].value
         # V[:, pi[lo:hi]]
-        ok = (isinstance(v, ast.Subscript) and isinstance(v.value, ast.Name) and v.value.id == "V"
-              and isinstance(v.slice, ast.Tuple) and len(v.slice.elts) == 2
+        ok = (isinstance(v, ast.Subscript) and isinstance(v.slice, ast.Tuple) and len(v.slice.elts) == 2
               and isinstance(v.slice.elts[0], ast.Slice) and v.slice.elts[0].lower is None
               and v.slice.elts[0].upper is None and v.slice.elts[0].step is None)
         if ok:
             p = v.slice.elts[1]
-            ok = (isinstance(p, ast.Subscript) and isinstance(p.value, ast.Name) and p.value.id == "pi"
-                  and isinstance(p.slice, ast.Slice) and p.slice.step is None
+            ok = (isinstance(p, ast.Subscript) and isinstance(p.slice, ast.Slice) and p.slice.step is None
                   and (p.slice.lower is None or _int(p.slice.lower) == 0) and p.slice.upper is not None)
         if not ok:
-            raise Lost(f"slice_bound: expected `V[:, pi[0 : ranks[k] [+ c]]]`, found `{ast.unparse(v)}`")
-        off = _plus_const(p.slice.upper, lambda n: _is_sub(n, "ranks", "k"))
+            raise Lost(f"slice_bound: expected `V[:, pi[0 : ranks[k] [+ c]]]`, found `{plain(v)[:90]}`")
+        vv, pi = v.value, p.value
+        ok = (isinstance(pi, ast.Call) and _call_name(pi.func) == "argsort" and len(pi.args) == 1
+              and isinstance(pi.args[0], ast.UnaryOp) and isinstance(pi.args[0].op, ast.USub))
+        if not ok:
+            raise Lost(f"slice_bound: the columns are not picked in descending order of the eigenvalues: `{plain(pi)[:70]}`")
+        eigh = eig_parts(pi.args[0].operand, "slice_bound")
+        if not (isinstance(vv, ast.Subscript) and _int(vv.slice) == 1 and text(vv.value) == eigh):
+            raise Lost("slice_bound: the factor is not cut from the eigenvectors of the same decomposition")
+        if "pi" in st and (text(pi) != st["pi"] or eigh != st["eigh"]):
+            raise Lost("slice_bound: rank cut-off and factor use different decompositions / orders")
+        rv = st.get("ranks")
+        off = _plus_const(p.slice.upper, lambda n: sub_k(n, rv))
         if off is None or off < 0:
-            raise Lost(f"slice_bound: unsupported upper bound `{ast.unparse(p.slice.upper)}`")
-        out["slice_bound"] = (off, st.lineno, ast.unparse(v))
+            raise Lost(f"slice_bound: unsupported upper bound `{plain(p.slice.upper)[:60]}`")
+        if rv is None:
+            ren[flow.base(p.slice.upper.value.id if off == 0 else p.slice.upper.left.value.id)] = "ranks"
+        py = flow.rename(fold(v, {text(vv): "V", text(pi): "pi"}), ren)
+        out["slice_bound"] = {"offset": off, "python": text(py),
+                              "doc": f"V[:, pi[0:ranks[k]{' + ' + str(off) if off else ''}]]"}
 
     def shrink_core():
-        src_fn = ast.unparse(fn)
-        for needle, what in (("Y = Y.ttm(factor_matrices[k].transpose(), int(k))", "shrink"),
-                             ("G = Y.ttm(factor_matrices, transpose=True)", "core (non-sequential)"),
-                             ("G = Y\n", "core (sequential)"),
-                             ("if sequential:", "sequential switch"),
-                             ("for k in dimorder:", "mode loop")):
-            if needle not in src_fn:
-                raise Lost(f"shrink/core: `{needle.strip()}` ({what}) not found")
+        if "dimorder" not in {flow.base(i) for i in flow.names(L.iter)}:
+            raise Lost("shrink/core: the mode loop does not run over dimorder")
+        ys = [F.sym(n.id)["var"] for n in ast.walk(G) if isinstance(n, ast.Name) and F.sym(n.id)
+              and F.sym(n.id)["kind"] == "out" and F.sym(n.id)["region"] == L.id and F.sym(n.id)["var"] != fm_var]
+        if len(set(ys)) != 1:
+            raise Lost("shrink/core: the core is not computed from the tensor shrunk in the mode loop")
+        ren[ys[0]] = "Y"
+        g = canon(simplify(G))
+        if g != "Y if sequential else Y.ttm(factor_matrices, transpose=True)":
+            raise Lost(f"shrink/core: core is `{g[:90]}`")
+        y = L.end(ys[0])
+        y = canon(simplify(y)) if y is not None else None
+        if y != "Y.ttm(factor_matrices[k].transpose(), int(k)) if sequential else Y":
+            raise Lost(f"shrink/core: shrink step is `{str(y)[:90]}`")
+        if "gram_drift" in st:
+            raise Lost(f"shrink/core: the decomposed matrix is `{st['gram_drift'][:90]}`")
 
-    for name, f in (("normxsqr", normxsqr), ("eigsumthresh", eigsumthresh), ("descending", descending),
-                    ("rank_is_auto", rank_is_auto), ("eigsum", eigsum), ("rank_cut", rank_cut),
+    for name, f in (("rank_is_auto", rank_is_auto), ("rank_cut", rank_cut), ("eigsum", eigsum),
+                    ("descending", descending), ("eigsumthresh", eigsumthresh), ("normxsqr", normxsqr),
                     ("slice_bound", slice_bound), ("shrink/core", shrink_core)):
-        attempt(name, f)
+        _attempt(lost, name, f)
     return out, lost
 
 
@@ -369,87 +453,140 @@ def read_hosvd(src):
 # tucker_als.py
 # ----------------------------------------------------------------------------
 def read_tucker(src):
+    """The fit, the residual and the number of passes are the values that reach the returned dictionary; the stop test
+    is the path condition of the main loop's only `break` (flow.py)."""
     out, lost = {}, []
-    mod = ast.parse(src)
+    F = Flow(src, roots=["tucker_als"])
     try:
-        fn = _fn(mod, "tucker_als")
-    except Lost as e:
-        return out, [str(e)]
+        R = F.run("tucker_als")
+    except KeyError:
+        return out, ["tucker_als: function not found"]
+    out["inlined_helpers"] = list(F.inlined)
+    main = [x for x in R.loops() if plain(x.iter) == "range(maxiters)" and len(x.targets) == 1]
+    if len(main) != 1:
+        return out, [f"loop: expected exactly one `for <it> in range(maxiters)`, found {len(main)}"]
+    L = main[0]
+    it = L.targets[0]
+    st = {}
 
-    def attempt(name, f):
-        try:
-            f()
-        except Lost as e:
-            lost.append(str(e))
-        except Exception as e:  # noqa: BLE001
-            lost.append(f"{name}: {type(e).__name__}: {e}")
+    def at_exit(var, what):
+        v = L.end(var)
+        if v is None:
+            raise Lost(f"{what}: `{var}` is not assigned in the main loop")
+        for _, env in L.breaks:
+            if var in env and text(env[var]) != text(v):
+                raise Lost(f"{what}: `{var}` differs between `break` and the end of the pass")
+        return v
+
+    def fold_inputs(e, extra):
+        def pred(n):
+            t = text(n)
+            if t in extra:
+                return extra[t]
+            if plain(t) == "input_tensor.norm()":
+                return "normX"
+            if _is_norm_call(n):
+                st.setdefault("cores", set()).add(text(n.func.value))
+                return "normCore"
+            return None
+        return flow.fold_where(e, pred)
+
+    def sinks():
+        ds = {text(d): d for d in flow.find_dict_with(R, ["fit", "normresidual", "iters"])}
+        if len(ds) != 1:
+            raise Lost(f"fit: expected one returned dictionary with \"fit\", \"normresidual\", \"iters\", found {len(ds)}")
+        d = next(iter(ds.values()))
+        for key in ("fit", "normresidual"):
+            var, recs = flow.split_sink(flow.dict_get(d, key), F, L.id)
+            if var is None or recs:
+                raise Lost(f"{key}: the reported value is not the value at the end of the main loop")
+            st[key] = var
+        st["iters"] = flow.dict_get(d, "iters")
 
     def normx():
-        st = _one_assign(fn, "normX")
-        if ast.unparse(st.value) != "input_tensor.norm()":
-            raise Lost(f"normX: expected `input_tensor.norm()`, found `{ast.unparse(st.value)}`")
+        if not any(plain(e.value) == "input_tensor.norm()" for e in R.entries("assign")):
+            raise Lost("normX: `input_tensor.norm()` is not computed")
 
-    def formula(name, allowed):
-        def go():
-            st = _one_assign(fn, name)
-            t = ExprTr(name)
-            body = t.tr(st.value)
-            if set(t.params) - set(allowed):
-                raise Lost(f"{name}: unexpected free names {t.params}")
-            out[name] = (body, t.params, st.lineno, ast.unparse(st.value))
-        return go
+    def normresidual():
+        if "normresidual" not in st:
+            raise Lost("normresidual: the reported value was not found")
+        v = simplify(at_exit(st["normresidual"], "normresidual"))
+        st["v_nr"] = v
+        out["normresidual"] = _formula("normresidual", fold_inputs(v, {}), ["normX", "normCore"])
 
     def fit():
-        # `fit = 0` initialises; the formula is the other assignment
-        a = [st for st in _assigns(fn, "fit") if _int(st.value) is None]
-        if len(a) != 1:
-            raise Lost(f"fit: expected one formula assignment, found {len(a)}")
-        init = [st for st in _assigns(fn, "fit") if _int(st.value) is not None]
-        if len(init) != 1 or _int(init[0].value) != 0:
-            raise Lost("fit: expected the initialisation `fit = 0`")
-        t = ExprTr("fit")
-        body = t.tr(a[0].value)
-        if set(t.params) - {"normresidual", "normX"}:
-            raise Lost(f"fit: unexpected free names {t.params}")
-        out["fit"] = (body, t.params, a[0].lineno, ast.unparse(a[0].value))
+        if "fit" not in st or "v_nr" not in st:
+            raise Lost("fit: the reported value was not found")
+        v = simplify(at_exit(st["fit"], "fit"))
+        st["v_fit"] = v
+        out["fit"] = _formula("fit", fold_inputs(v, {text(st["v_nr"]): "normresidual"}), ["normresidual", "normX"])
+        init = L.pre_env.get(st["fit"])
+        if init is None or _int(init) != 0:
+            raise Lost("fit: expected the initialisation `fit = 0` in front of the main loop")
 
     def stop():
-        for st in _walk_stmts(fn.body):
-            if isinstance(st, ast.If) and len(st.body) == 1 and isinstance(st.body[0], ast.Break) and not st.orelse:
-                t = ExprTr("stop")
-                body = t.tr(st.test)
-                if set(t.params) != {"fitchange", "stoptol"}:
-                    raise Lost(f"stop: expected a comparison of fitchange and stoptol, found `{ast.unparse(st.test)}`")
-                out["stop"] = (body, ["fitchange", "stoptol"], st.lineno, ast.unparse(st.test))
-                return
-        raise Lost("stop: `if <test>: break` not found")
+        if "v_fit" not in st:
+            raise Lost("stop: the fit of the pass was not read")
+        if len(L.breaks) != 1:
+            raise Lost(f"stop: expected exactly one `break` in the main loop, found {len(L.breaks)}")
+        if L.continues:
+            raise Lost("stop: the main loop skips part of a pass (`continue`)")
+        c = flow.conj(L.breaks[0][0])
+        if c is None:
+            raise Lost("stop: unconditional break")
+        leaves = {text(st["v_fit"]): "fit", f"{st['fit']}{flow.SEP}in{L.id}": "fitold"}
+        c = simplify(fold(c, leaves))
+        cands = flow.maximal_over(c, {"fit", "fitold"}, _pure_call)
+        if len(cands) != 1:
+            raise Lost(f"fitchange: expected one quantity built from the old and the new fit in the stop test, found {len(cands)}")
+        out["fitchange"] = _formula("fitchange", cands[0], ["fitold", "fit"])
+        s = _formula("stop", fold(c, {text(cands[0]): "fitchange"}), ["fitchange", "stoptol"])
+        if set(s["params"]) != {"fitchange", "stoptol"}:
+            raise Lost(f"stop: expected a comparison of fitchange and stoptol, found `{s['python']}`")
+        s["params"] = ["fitchange", "stoptol"]
+        out["stop"] = s
 
     def iters():
-        for node in ast.walk(fn):
-            if isinstance(node, ast.Dict):
-                for k, v in zip(node.keys, node.values):
-                    if isinstance(k, ast.Constant) and k.value == "iters":
-                        off = _plus_const(v, lambda n: isinstance(n, ast.Name) and n.id == "iteration")
-                        if off is None or off < 0:
-                            raise Lost(f"iters: unsupported value `{ast.unparse(v)}`")
-                        out["iters"] = (off, v.lineno, ast.unparse(v))
-                        return
-        raise Lost('iters: `"iters": iteration [+ c]` not found')
+        v = st.get("iters")
+        if v is None:
+            raise Lost('iters: `"iters": iteration [+ c]` not found')
+
+        def is_it(n):
+            s = F.sym(n.id) if isinstance(n, ast.Name) else None
+            return bool(s) and s["kind"] == "out" and s["region"] == L.id and s["var"] == it
+        off = _plus_const(v, is_it)
+        if off is None or off < 0:
+            raise Lost(f"iters: unsupported value `{plain(v)}`")
+        out["iters"] = {"offset": off, "python": text(flow.rename(v, {it: "iteration"}))}
 
     def loop():
-        src_fn = ast.unparse(fn)
-        for needle in ("for iteration in range(maxiters):", "fitold = fit", "for n in dimorder:",
-                       "Utilde = input_tensor.ttm(U, exclude_dims=n, transpose=True)",
-                       "U[n] = Utilde.nvecs(n, rank[n])", "core = Utilde.ttm(U, n, transpose=True)"):
-            if needle not in src_fn:
-                raise Lost(f"loop: `{needle}` not found")
+        inner = [x for x in L.loops() if len(x.targets) == 1 and "dimorder" in {flow.base(i) for i in flow.names(x.iter)}]
+        if len(inner) != 1:
+            raise Lost(f"loop: expected one loop over dimorder in a pass, found {len(inner)}")
+        L2 = inner[0]
+        if plain(L2.node.iter) != "dimorder":
+            raise Lost(f"loop: the modes are visited in the order `{plain(L2.node.iter)}`")
+        eff = [e for e in L2.entries(("effect", "augeffect"))]
+        if len(eff) != 1 or eff[0].kind != "effect" or eff[0].rel_pc():
+            raise Lost(f"loop: expected one factor update in the mode loop, found {len(eff)}")
+        ren = {L2.targets[0]: "n", eff[0].name: "U"}
+        pl = flow.param_leaves(L.pre_env, R.node)
+        tgt = text(flow.rename(eff[0].target, ren))
+        val = text(flow.rename(fold(eff[0].value, pl), ren))
+        if tgt != "U[n]" or val != "input_tensor.ttm(U, exclude_dims=n, transpose=True).nvecs(n, rank[n])":
+            raise Lost(f"loop: factor update is `{tgt} = {val[:90]}`")
+        cores = st.get("cores", set())
+        if len(cores) != 1:
+            raise Lost(f"loop: the residual uses the norms of {len(cores)} objects")
+        # the receiver of `.norm()`: the core assembled after the mode loop
+        recv = [n.func.value for n in ast.walk(st["v_nr"]) if _is_norm_call(n) and plain(n) != "input_tensor.norm()"]
+        c = text(flow.rename(fold(F.deref(recv[0]), pl), ren))
+        if c != "input_tensor.ttm(U, exclude_dims=n, transpose=True).ttm(U, n, transpose=True)":
+            raise Lost(f"loop: the core is `{c[:100]}`")
 
-    for name, f in (("normX", normx),
-                    ("normresidual", formula("normresidual", ["normX", "normCore"])),
-                    ("fit", fit),
-                    ("fitchange", formula("fitchange", ["fitold", "fit"])),
-                    ("stop", stop), ("iters", iters), ("loop", loop)):
-        attempt(name, f)
+    for name, f in (("fit", sinks), ("normX", normx), ("normresidual", normresidual), ("fit", fit), ("stop", stop),
+                    ("iters", iters), ("loop", loop)):
+        _attempt(lost, name, f)
     return out, lost
 
 
@@ -471,41 +608,53 @@ def _def(name, params, ret, body, doc, int_params=()):
 
 
 def render(h, t):
+    """Lean text of everything that was read (missing definitions are filled in from the pinned file by
+    harness/translate/__init__.py)."""
     parts = [HEADER]
-    body, line, srcs = h["eigsumthresh"]
-    parts.append(_def("eigsumthresh", h["eigsumthresh_params"], "α", body,
-                      f"hosvd.py:{line}  `eigsumthresh = {srcs}`"))
-    c, line, srcs = h["auto_marker"]
-    parts.append(f"/-- hosvd.py:{line}  `if {srcs}:` — the rank of a mode is chosen automatically when the\n"
-                 f"requested rank is this value. -/\ndef autoMarker : Nat := {c}\n")
-    parts.append(f"/-- hosvd.py:{h['eigsum_line']}  `eigsum = np.cumsum(eigvec[::-1])`, `eigsum = eigsum[::-1]` -/\n"
-                 "def eigsum (eigvec : List α) : List α := revCumsum eigvec\n")
-    cond, off, line, srcs = h["rank_cut"]
-    parts.append(f"/-- hosvd.py:{line}  `ranks[k] = {srcs}`: the condition tested on every entry `e` of `eigsum`. -/\n"
-                 f"def cutCond (ops : NumOps α) (eigsumthresh : α) (e : α) : Bool :=\n  {cond}\n")
-    parts.append(f"/-- hosvd.py:{line}  what is added to the last qualifying position. -/\n"
-                 f"def cutOffset : Nat := {off}\n")
-    parts.append(f"/-- hosvd.py:{line}  `ranks[k] = {srcs}`; `none` where NumPy raises. -/\n"
-                 "def rankCut (ops : NumOps α) (eigsum : List α) (eigsumthresh : α) : Option Nat :=\n"
-                 "  (lastIdxWhere (cutCond ops eigsumthresh) eigsum).map (· + cutOffset)\n")
-    off, line, srcs = h["slice_bound"]
-    parts.append(f"/-- hosvd.py:{line}  `factor_matrices[k] = {srcs}`: number of leading entries of `pi` kept,\n"
-                 f"for automatic and for user-given ranks alike. -/\ndef sliceBound (rank : Nat) : Nat := rank + {off}\n")
+    if "eigsumthresh" in h:
+        e = h["eigsumthresh"]
+        parts.append(_def("eigsumthresh", e["params"], "α", e["lean"], f"hosvd.py  `eigsumthresh = {e['doc']}`"))
+    if "auto_marker" in h:
+        e = h["auto_marker"]
+        parts.append(f"/-- hosvd.py  `if {e['python']}:` — the rank of a mode is chosen automatically when the\n"
+                     f"requested rank is this value. -/\ndef autoMarker : Nat := {e['value']}\n")
+    if "eigsum" in h:
+        parts.append("/-- hosvd.py  `eigsum = np.cumsum(eigvec[::-1])`, `eigsum = eigsum[::-1]` -/\n"
+                     "def eigsum (eigvec : List α) : List α := revCumsum eigvec\n")
+    if "rank_cut" in h:
+        e = h["rank_cut"]
+        parts.append(f"/-- hosvd.py  `ranks[k] = {e['doc']}`: the condition tested on every entry `e` of `eigsum`. -/\n"
+                     f"def cutCond (ops : NumOps α) (eigsumthresh : α) (e : α) : Bool :=\n  {e['cond']}\n")
+        parts.append(f"/-- hosvd.py  what is added to the last qualifying position. -/\n"
+                     f"def cutOffset : Nat := {e['offset']}\n")
+        parts.append(f"/-- hosvd.py  `ranks[k] = {e['doc']}`; `none` where NumPy raises. -/\n"
+                     "def rankCut (ops : NumOps α) (eigsum : List α) (eigsumthresh : α) : Option Nat :=\n"
+                     "  (lastIdxWhere (cutCond ops eigsumthresh) eigsum).map (· + cutOffset)\n")
+    if "slice_bound" in h:
+        e = h["slice_bound"]
+        parts.append(f"/-- hosvd.py  `factor_matrices[k] = {e['doc']}`: number of leading entries of `pi` kept,\n"
+                     f"for automatic and for user-given ranks alike. -/\ndef sliceBound (rank : Nat) : Nat := rank + {e['offset']}\n")
     for name in ("normresidual", "fit", "fitchange"):
-        body, params, line, srcs = t[name]
-        parts.append(_def(name, params, "α", body, f"tucker_als.py:{line}  `{name} = {srcs}`"))
-    body, params, line, srcs = t["stop"]
-    parts.append(_def("stopTest", params, "Bool", body, f"tucker_als.py:{line}  `if {srcs}: break`"))
-    off, line, srcs = t["iters"]
-    parts.append(f"/-- tucker_als.py:{line}  `\"iters\": {srcs}` with `iteration` the 0-based loop index. -/\n"
-                 f"def itersReported (iteration : Nat) : Nat := iteration + {off}\n")
+        if name in t:
+            e = t[name]
+            parts.append(_def(name, e["params"], "α", e["lean"], f"tucker_als.py  `{name} = {e['doc']}`"))
+    if "stop" in t:
+        e = t["stop"]
+        parts.append(_def("stopTest", e["params"], "Bool", e["lean"], f"tucker_als.py  `if {e['doc']}: break`"))
+    if "iters" in t:
+        e = t["iters"]
+        parts.append(f"/-- tucker_als.py  `\"iters\": {e['python']}` with `iteration` the 0-based loop index. -/\n"
+                     f"def itersReported (iteration : Nat) : Nat := iteration + {e['offset']}\n")
     parts.append("end Pyttb.Tk.Gen\n")
     return "\n".join(parts)
 
 
+def _jsonable(d):
+    return {k: v for k, v in d.items()}
+
+
 def build():
     """-> (lean text | None, lost anchors, description)"""
-    lost = []
     try:
         hs = (REPO / "pyttb" / "hosvd.py").read_text()
         ts = (REPO / "pyttb" / "tucker_als.py").read_text()
@@ -520,27 +669,38 @@ def build():
     except SyntaxError as e:
         t, l2 = {}, [f"tucker_als.py: syntax error {e}"]
     lost = l1 + l2
-    need_h = ("eigsumthresh", "auto_marker", "eigsum_line", "rank_cut", "slice_bound")
+    need_h = ("eigsumthresh", "auto_marker", "eigsum", "rank_cut", "slice_bound")
     need_t = ("normresidual", "fit", "fitchange", "stop", "iters")
-    desc = {"hosvd": {k: (list(v) if isinstance(v, tuple) else v) for k, v in h.items()},
-            "tucker_als": {k: (list(v) if isinstance(v, tuple) else v) for k, v in t.items()}}
-    if any(k not in h for k in need_h) or any(k not in t for k in need_t):
-        return None, lost or ["gen_tucker: incomplete reading"], desc
+    desc = {"hosvd": _jsonable(h), "tucker_als": _jsonable(t)}
+    missing = [k for k in need_h if k not in h] + [k for k in need_t if k not in t]
+    if missing and not lost:
+        lost = [f"gen_tucker: incomplete reading: {missing}"]
     return render(h, t), lost, desc
 
 
 def sources():
-    """The anchored Python expressions (for the cross-check of the translator's reading)."""
-    h, _ = read_hosvd((REPO / "pyttb" / "hosvd.py").read_text())
-    t, _ = read_tucker((REPO / "pyttb" / "tucker_als.py").read_text())
-    return h, t
+    """What was read from the two files (for the cross-check of the translator's reading): (hosvd dict, tucker dict,
+    lost anchors)."""
+    h, l1 = read_hosvd((REPO / "pyttb" / "hosvd.py").read_text())
+    t, l2 = read_tucker((REPO / "pyttb" / "tucker_als.py").read_text())
+    return h, t, l1 + l2
 
 
 def run(prop: str, info: dict):
-    text, lost, desc = build()
+    text_, lost, desc = build()
     info.setdefault("translators", {})["gen_tucker"] = {"lost": lost, **desc}
-    if text is not None:
+    if text_ is None:
+        # the source could not be read at all: the pinned definitions (never a stale file of another tree)
+        pin = Path(__file__).parent / "pinned" / OUT.name
+        text_ = pin.read_text() if pin.exists() else None
+    if text_ is not None:
         OUT.parent.mkdir(parents=True, exist_ok=True)
-        if not OUT.exists() or OUT.read_text() != text:
-            OUT.write_text(text)
+        if not OUT.exists() or OUT.read_text() != text_:
+            OUT.write_text(text_)
     return [f"gen_tucker: {a}" for a in lost]
+
+
+if __name__ == "__main__":
+    t_, l_, _ = build()
+    print(t_)
+    print("lost:", l_)
